@@ -21,15 +21,38 @@ extern void vf_native_reach(int id);
 static inline void vf_assume(uint8_t c) { if (!c) vf_native_assume_fail(); }
 static inline void vf_assert(uint8_t c, uint32_t id) { if (!c) vf_native_assert_fail((int)id); }
 static inline void vf_reach(uint32_t id) { vf_native_reach((int)id); }
+extern void vf_native_obs(uint32_t v);
+static inline void vf_obs(uint32_t v) { vf_native_obs(v); }
 static inline uint64_t vf_undef(void) { return 0; }
 #define VF_FAIL(code, msg) do { fprintf(stderr, "VF_FAIL %s\n", msg); vf_native_assert_fail(-(code)); } while (0)
 #else
 uint8_t nondet_u8(void); uint16_t nondet_u16(void); uint32_t nondet_u32(void); uint64_t nondet_u64(void);
 uint64_t nondet_undef64(void);
+#ifdef VF_MITER
+/* transcript miter (C16): configuration A draws nondeterministic values and logs them, configuration B replays the log;
+   both append their observations to a transcript; the transcripts must be identical for every input. */
+static int vf_phase; static uint64_t vf_log[48]; static int vf_logn, vf_logi; static uint8_t vf_draw_mismatch;
+static uint32_t vf_trA[96], vf_trB[96]; static int vf_tnA, vf_tnB; static uint8_t vf_tr_overflow;
+static inline uint64_t vf_miter_draw(uint64_t fresh) {
+  if (vf_phase == 0) { if (vf_logn < 48) vf_log[vf_logn++] = fresh; else vf_tr_overflow = 1; return fresh; }
+  if (vf_logi < vf_logn) return vf_log[vf_logi++];
+  vf_draw_mismatch = 1; return 0;
+}
+static inline uint8_t vf_nondet_u8(void) { return (uint8_t)vf_miter_draw(nondet_u8()); }
+static inline uint16_t vf_nondet_u16(void) { return (uint16_t)vf_miter_draw(nondet_u16()); }
+static inline uint32_t vf_nondet_u32(void) { return (uint32_t)vf_miter_draw(nondet_u32()); }
+static inline uint64_t vf_nondet_u64(void) { return vf_miter_draw(nondet_u64()); }
+static inline void vf_obs(uint32_t v) {
+  if (vf_phase == 0) { if (vf_tnA < 96) vf_trA[vf_tnA++] = v; else vf_tr_overflow = 1; }
+  else { if (vf_tnB < 96) vf_trB[vf_tnB++] = v; else vf_tr_overflow = 1; }
+}
+#else
 static inline uint8_t vf_nondet_u8(void) { return nondet_u8(); }
 static inline uint16_t vf_nondet_u16(void) { return nondet_u16(); }
 static inline uint32_t vf_nondet_u32(void) { return nondet_u32(); }
 static inline uint64_t vf_nondet_u64(void) { return nondet_u64(); }
+static inline void vf_obs(uint32_t v) { (void)v; }
+#endif
 static inline void vf_assume(uint8_t c) { __CPROVER_assume(c); }
 #define vf_assert(c, id) __CPROVER_assert((c), "vf_assert " #id)
 #define vf_reach(id) __CPROVER_assert(0, "vf_reach " #id)
